@@ -58,14 +58,15 @@ def case_strategy(draw):
     og = draw(st.sampled_from(['wider', 'shift', 'same', 'narrower', 'coarser', 'wider', 'disjoint', 'finer', 'offset', 'offset']))
     return dict(nexp=nexp, n=n, c0=c0, c1=c1, fam=fam, fp=[draw(uf) for _ in range(4)], zeros=zeros, zpattern=zp,
                 offsets=[0.0] + [0.5 * (1 + draw(uf)) * 0.98 + 0.01 for _ in range(nexp - 1)],
-                og=og, frac=draw(st.sampled_from([0.5, 0.25, 0.01, 0.99, 0.73])), left=draw(st.integers(1, 40)), right=draw(st.integers(1, 40)),
+                og=og, frac=draw(st.sampled_from([0.5, 0.25, 0.01, 0.99, 0.73, 3e-6, 1 - 4e-6, 6e-6])), left=draw(st.integers(1, 40)), right=draw(st.integers(1, 40)),
                 aesthetics=draw(st.sampled_from(['traditional', 'noconst', 'mean', 'nothing', 'damp'])),
                 with_ivar=draw(st.sampled_from([True, True, True, False])) if nexp == 1 else True,
                 ivar_kind=draw(st.sampled_from(['smooth', 'const'])), scale=draw(st.sampled_from([2.0, 1e-17, 0.5, 1000.0, 1e-3, 1e-9, -2.0])),
                 seed=draw(st.integers(0, 10 ** 6)),
                 # stacked exposures on one grid sharing a mask that leaves one (or two) good wavelengths between two runs of two bad pixels
                 negate=draw(st.sampled_from([False, False, True])),
-                layout=draw(st.sampled_from(['C', 'F', 'T'])),
+                layout=draw(st.sampled_from(['C', 'F', 'T'])), arms=draw(st.sampled_from([None, None, None, 5, 20, 60])) if nexp >= 2 else None,
+                hole=(draw(st.sampled_from([None, None, None, [draw(st.integers(30, n - 40)), draw(st.sampled_from([12, 5, 30]))]])) if nexp == 1 else None),
                 iso=(draw(st.sampled_from([None, None, [draw(st.integers(20, n - 20)), draw(st.sampled_from([1, 2]))]])) if nexp >= 2 else None))
 
 
@@ -79,6 +80,10 @@ def build(case):
     rng = np.random.RandomState(case['seed'])          # only shapes noise; part of the case
     for e in range(nexp):
         ll = c0 + c1 * (k + (case['offsets'][e] if not case.get('iso') else 0.0))
+        if case.get('arms'):
+            # exposures that cover different wavelength ranges (blue and red arm) with a hole of 5 - 60 pixels between them that no input pixel,
+            # flagged or not, falls into
+            ll = c0 + c1 * (k + e * (n + case['arms']) + case['offsets'][e])
         s = (ll - c0) / (c1 * n)
         if case['fam'] == 'const':
             fl = np.full(n, 5.0 + 3 * fp[0])
@@ -129,6 +134,15 @@ def build(case):
         nl = c0 + (c1 / m) * (np.arange(m * (n // 3), m * n + 12, dtype='f8') + f)
     else:
         nl = c0 + c1 * (n + 50 + np.arange(60, dtype='f8'))
+    if case.get('arms'):
+        # the output grid runs over all arms and the holes between them
+        nl = c0 + c1 * (np.arange(-case['left'], nexp * (n + case['arms']) + case['right'], dtype='f8') + f)
+    if nexp == 1 and case.get('hole'):
+        # a single vector whose sampling has a hole (blue and red arm stored one after the other, detector-gap pixels removed rather than flagged)
+        a_, w_ = case['hole']
+        keep_ = np.ones(n, dtype=bool)
+        keep_[a_:a_ + w_] = False
+        return lls[0][keep_], fls[0][keep_], ivs[0][keep_], nl
     if nexp == 1:
         return lls[0], fls[0], ivs[0], nl
     return np.array(lls), np.array(fls), np.array(ivs), nl
@@ -155,7 +169,8 @@ def allowed_nonzero(ll, good, nl):
         if i < 0 or i >= n - 1:
             continue
         if good[i] and good[i + 1]:
-            out[j] = 1
+            # (inside a hole of the input sampling no spline need be fitted: weight or none, but if weight then the right flux)
+            out[j] = 1 if ll[i + 1] - ll[i] < 1.5 * step else 0
     return out
 
 
@@ -270,6 +285,9 @@ def body(case):
                 badl = np.concatenate([l1[np.asarray(iv) <= 0] if with_ivar else l1[:0], l1[[0, -1]]])
                 deep = np.min(np.abs(nl[:, None] - badl[None, :]), axis=1) > 12 * abs(l1[1] - l1[0])
                 deep &= (nl > l1.min()) & (nl < l1.max())
+                for g_ in np.nonzero(np.diff(l1) > 1.5 * abs(l1[1] - l1[0]))[0]:
+                    # a hole in the sampling is an end of the data on either side
+                    deep &= (nl < l1[g_] - 12 * abs(l1[1] - l1[0])) | (nl > l1[g_ + 1] + 12 * abs(l1[1] - l1[0]))
                 if deep.any():
                     w2 = int(np.nonzero(deep)[0][(dev[deep] / tolv[deep]).argmax()])
                     check(bool(np.all(dev[deep] <= tolv[deep])), 'flux-not-reproduced-deep-inside-good-data',
